@@ -4,6 +4,7 @@ import (
 	"fmt"
 	"reflect"
 	"sort"
+	"unsafe"
 )
 
 // Labeler may be implemented by map keys that have a stable name.
@@ -85,6 +86,11 @@ func deepLabel(v reflect.Value, depth int, out *[]byte) bool {
 	if !v.IsValid() {
 		*out = append(*out, '-')
 		return true
+	}
+	if !v.CanInterface() && v.CanAddr() {
+		// reached through an unexported field: re-derive an interfaceable
+		// value so that labelled objects inside are recognised
+		v = reflect.NewAt(v.Type(), unsafe.Pointer(v.UnsafeAddr())).Elem()
 	}
 	if v.CanInterface() {
 		switch x := v.Interface().(type) {
